@@ -168,6 +168,11 @@ LEMMAS['SUM/count-bounds'] = dict(
     hyps=['n >= 0', 'forall(j, 0, n, 0 <= f[j] and f[j] <= 1)'],
     induct=('m', '0', 'n', '0 <= Sum(j, m, f[j]) and Sum(j, m, f[j]) <= m'))
 
+LEMMAS['SUM/nonneg'] = dict(
+    vars={'f': ('list', 'int'), 'n': 'int'},
+    hyps=['n >= 0', 'forall(j, 0, n, f[j] >= 0)'],
+    induct=('m', '0', 'n', 'Sum(j, m, f[j]) >= 0'))
+
 # ---- a prefix of a sum of non-negative terms is at most the whole sum
 LEMMAS['SUM/prefix-le'] = dict(
     vars={'f': ('list', 'int'), 'k': 'int', 'n': 'int'},
@@ -303,3 +308,46 @@ LEMMAS['C10/derived-lists-compose'] = dict(
           ('ensures', 'model:Model.set_rank_lists', {'self': 'S.model'}, None, ['rank-list-holds-exactly-the-pairs-of-that-rank']),
           ('list-read-rule-projects', _read_rule('project_lists')), ('list-read-rule-lecturers', _read_rule('lecturer_lists')), ('list-read-rule-ranks', _read_rule('rank_lists'))],
     goals=[('requires', 'solver:Solver.solve', {'self': 'S'}, None, ['one-list-per-project', 'one-list-per-lecturer', 'derived-lists-hold-model-pairs'])])
+
+
+# ---- C03 / C04: the set-level steps, over an uninterpreted sort V of valuations of ALL LP variables.
+#      F   = the valuations satisfying the program before the criterion;  m = the documented measure (a function of the valuation);
+#      o   = the value of the criterion's fresh objective variable;  lo..hi = its declared bounds.
+#      LINK   (each criterion's exact postcondition):   F1(v) <=> F(v) and lo <= o(v) <= hi and m(v) == o(v)
+#      SOLVE  (T3):                                      the solver reports some s in F1 with o(s) maximal over F1
+#      FREEZE (perform_optimisation's postcondition):    F2(v) <=> F1(v) and o(v) >= o(s)
+def _freeze_opt(z3):
+    V = z3.DeclareSort('Valuation'); B = z3.BoolSort(); I = z3.IntSort()
+    F, F1, F2 = (z3.Function(n, V, B) for n in ('F', 'F1', 'F2')); m, o = z3.Function('m', V, I), z3.Function('o', V, I)
+    ext = z3.Function('ext', V, V)          # the valuation v with the fresh objective variable set to m(v) (all other variables unchanged)
+    lo, hi = z3.Ints('lo hi'); s = z3.Const('s', V); v, w = z3.Consts('v w', V)
+    link = z3.ForAll([v], F1(v) == z3.And(F(v), lo <= o(v), o(v) <= hi, m(v) == o(v)))
+    solve = z3.And(F1(s), z3.ForAll([v], z3.Implies(F1(v), o(v) <= o(s))))
+    freeze = z3.ForAll([v], F2(v) == z3.And(F1(v), o(v) >= o(s)))
+    # the objective variable is fresh: re-setting it changes neither membership in F nor the measure
+    fresh = z3.ForAll([v], z3.And(F(ext(v)) == F(v), m(ext(v)) == m(v), o(ext(v)) == m(v)), patterns=[ext(v)])
+    wib = z3.ForAll([v], z3.Implies(F(v), z3.And(lo <= m(v), m(v) <= hi)))          # witness-in-bounds (C02's open obligation)
+    H = [link, solve, freeze]
+    return [
+      ('frozen-set-is-the-optimal-part-of-the-linked-set', H, z3.ForAll([v], F2(v) == z3.And(F1(v), z3.ForAll([w], z3.Implies(F1(w), m(w) <= m(v)))))),
+      ('frozen-set-is-not-empty', H, F2(s)),
+      ('with-witness-in-bounds-the-optimum-is-over-all-feasible-valuations', H + [fresh, wib],
+       z3.ForAll([v], z3.Implies(F2(v), z3.And(F(v), z3.ForAll([w], z3.Implies(F(w), m(w) <= m(v))))))),
+      ('with-witness-in-bounds-every-optimal-feasible-valuation-survives', H + [fresh, wib],
+       z3.ForAll([v], z3.Implies(z3.And(F(v), z3.ForAll([w], z3.Implies(F(w), m(w) <= m(v)))), F2(ext(v))))),
+    ]
+LEMMAS['C03/freeze-opt'] = dict(raw=_freeze_opt)
+
+
+def _lex_chain(z3):
+    V = z3.DeclareSort('Valuation'); B = z3.BoolSort(); I = z3.IntSort()
+    A, Bs, C = (z3.Function(n, V, B) for n in ('A', 'B', 'C')); m1, m2 = z3.Function('m1', V, I), z3.Function('m2', V, I)
+    v, w = z3.Consts('v w', V)
+    best1 = z3.ForAll([v], Bs(v) == z3.And(A(v), z3.ForAll([w], z3.Implies(A(w), m1(w) <= m1(v)))))        # after the first criterion (freeze-opt)
+    best2 = z3.ForAll([v], C(v) == z3.And(Bs(v), z3.ForAll([w], z3.Implies(Bs(w), m2(w) <= m2(v)))))      # after the second, started from B
+    lex = lambda x: z3.And(A(x), z3.ForAll([w], z3.Implies(A(w), z3.Or(m1(w) < m1(x), z3.And(m1(w) == m1(x), m2(w) <= m2(x))))))
+    return [
+      ('two-criteria-give-the-lexicographic-optimum', [best1, best2], z3.ForAll([v], C(v) == lex(v))),
+      ('a-later-criterion-never-worsens-an-earlier-value', [best1, best2], z3.ForAll([v, w], z3.Implies(z3.And(C(v), A(w)), m1(w) <= m1(v)))),
+    ]
+LEMMAS['C04/lex-chain'] = dict(raw=_lex_chain)
